@@ -56,6 +56,11 @@ impl Ntv2Grid {
             // The NTv2 spec does not guarantee the order of subgrids, so we must create
             // a lookup table from parent to children to make it possible for `find_grid` to
             // have a start point for working out which subgrid, if any, contains the point
+            // Sub grid names are the nodes of the lookup tree: a repeated name (or one
+            // colliding with the root marker) would make `find_grid` run in circles
+            if name == "NONE" || subgrids.contains_key(&name) {
+                return Err(Error::Invalid("Duplicate sub grid name".to_string()));
+            }
             subgrids.insert(name.clone(), grid);
             lookup_table
                 .entry(parent)
